@@ -23,8 +23,9 @@ const STRACE: &str = "/usr/bin/strace";
 /// system calls whose k-th occurrence is a crash point
 const CRASH_CALLS: [&str; 7] = ["openat", "write", "rename", "renameat", "renameat2", "unlink", "unlinkat"];
 /// (system call, errno values injected)
-const ERRNO_CALLS: [(&str, &[&str]); 8] = [
+const ERRNO_CALLS: [(&str, &[&str]); 9] = [
     ("openat", &["EIO", "EMFILE", "ENOSPC", "EACCES"]),
+    ("getdents64", &["EIO", "EACCES"]),
     ("read", &["EIO", "EINTR"]),
     ("write", &["ENOSPC", "EIO", "EINTR", "EDQUOT"]),
     ("unlink", &["EBUSY", "EACCES"]),
@@ -35,7 +36,7 @@ const ERRNO_CALLS: [(&str, &[&str]); 8] = [
 ];
 /// calls counted only when they touch a project path (strace -P): the dynamic loader and the
 /// runtime open, read and close files of their own on the main thread
-const TRACE_FILTERED: &str = "openat,read,write,close";
+const TRACE_FILTERED: &str = "openat,read,write,close,getdents64";
 /// calls counted wherever they point (nothing but txtpp's own code renames or unlinks; strace 6.1
 /// does not match the target of a plain rename(2) against -P, so a path filter would hide the
 /// final step of a staged write)
@@ -328,9 +329,21 @@ fn trace_paths(root: &Path, image: &Snap, a: &crate::spec::Analysis) -> Vec<Path
     for g in a.gen_all() {
         set.insert(g);
     }
+    // directories: scans read them (getdents64 on a descriptor of the directory)
+    let mut dirs: BTreeSet<String> = BTreeSet::new();
+    dirs.insert(String::new());
+    for (p, n) in image {
+        if matches!(n, Node::Dir) {
+            dirs.insert(p.clone());
+        }
+    }
     // staging names a changed tree might use beside a generated path are not known: only the
     // paths of the project and its generated files count as fault positions
-    set.into_iter().take(200).map(|p| root.join(tree::osp(&p))).collect()
+    let mut v: Vec<PathBuf> = set.into_iter().take(200).map(|p| root.join(tree::osp(&p))).collect();
+    for d in dirs.into_iter().take(40) {
+        v.push(if d.is_empty() { root.to_path_buf() } else { root.join(tree::osp(&d)) });
+    }
+    v
 }
 
 struct PointResult {
